@@ -212,6 +212,10 @@ func build(fx *cat.Fixture, c caseA) (*s3c.Req, error) {
 			}
 		case "path-append":
 			r.Path += m.Value
+		case "target":
+			// the request target as sent on the request line, in a form that is no path (asterisk form, absolute
+			// form, no leading slash, empty)
+			r.RawPath = m.Value
 		case "header-drop":
 			r.Del(m.Name)
 		case "auth-header":
@@ -555,7 +559,7 @@ func genCase(t *rapid.T) caseA {
 	e := cat.Lookup(c.Spec.Op)
 	for i := 0; i < n; i++ {
 		var m mut
-		kind := rapid.SampledFrom([]string{"query", "query", "header", "header", "body-text", "body-text", "body-drop", "body-doc", "body-dup", "body-nest", "path-append", "header-drop", "auth-header"}).Draw(t, "where")
+		kind := rapid.SampledFrom([]string{"query", "query", "header", "header", "body-text", "body-text", "body-drop", "body-doc", "body-dup", "body-nest", "path-append", "target", "header-drop", "auth-header"}).Draw(t, "where")
 		m.Where = kind
 		switch kind {
 		case "query":
@@ -594,6 +598,8 @@ func genCase(t *rapid.T) caseA {
 			m.Value = rapid.SampledFrom([]string{"3", "100", "20000"}).Draw(t, "depth")
 		case "path-append":
 			m.Value = rapid.SampledFrom([]string{"/", "//", "/.", "%00", "?", "/" + strings.Repeat("a", 300), strings.Repeat("/a", 200)}).Draw(t, "tail")
+		case "target":
+			m.Value = rapid.SampledFrom([]string{"*", "*", "bkt-a", "bkt-a/obj1", "http://h/bkt-a/obj1", "http://h", "//", "/%", "?", "?acl", "/bkt-a?%zz", "\\", "."}).Draw(t, "target")
 		}
 		c.Muts = append(c.Muts, m)
 	}
